@@ -58,6 +58,18 @@ CHECKS = {
              'threshold Antenna, an AntennaSystem with delaying front end (two lead-in times) and noisy antennas.',
         note='Open known finding D9 (query-receive(overlap)-query) is accepted only where the spec predicate Stale holds. '
              'Noise is checked as consistency of interpretation, not by value.'),
+    'C10': dict(
+        spec='Kernel.tla + TraceKernel.tla', design='4.5',
+        technique='TLA+ spec Kernel.tla checked with TLC over all scenarios; spec behaviours replayed on the real EventKernel with scripted components; recorded runs on shipped components validated by TLC trace validation (TraceKernel.tla)',
+        text='Kernel.tla models the loop nest of EventKernel.event with one action per component call over a scenario '
+             '(weights, weight cut form, solutions per particle/antenna, off-cone and refused solutions, trigger form, '
+             'writer); TLC checks OneSignalPerSolution, OffConeOnlySubstitutes, PathsPolsAligned, ModelCalledUnlessOff, '
+             'WriterGetsWhatAntennasGot, TriggerIsFunctionOfAntennas, ReturnShape on every scenario (19k quick / all '
+             'thorough). Thousands of scenarios are executed on the real kernel with scripted components, and real runs '
+             'over every shipped tracer x ice x Askaryan model x generator (settings cycled) are recorded through proxies '
+             'and validated event by event by TLC; an exception escaping event() is an unmatched event.',
+        note='The scenario of a recorded run is derived from the observation (solution counts from the real tracer). '
+             'Physical correctness of the signals is C01/C03/C07 material and not examined.'),
 }
 
 NOT_APPLICABLE = {
